@@ -404,6 +404,9 @@ class C09(Suite):
             r = {"op": "wf" if frag else "wt", "path": path, "ty": lc.TYPES[ty], "n": n, "vals": vals}
             if frag:
                 r["off"] = 0
+                if region != "stripe" and n > 1 and rng.random() < 0.2:    # a later fragment of a fragmented write
+                    j = rng.randint(1, n - 1)
+                    r["off"], r["vals"] = j * siz, vals[j:]
             if bad:
                 kind = rng.choice(["range", "type", "count"])
                 if kind == "range":
